@@ -57,6 +57,10 @@ def _case(draw):
     ops = list(r["ops"])
     for sel, text in labels:
         ops.append(["attrs", sel, [[gen.prov_name("label"), {"k": "str", "v": text}]], "pairs"])
+    if draw(st.integers(0, 3)) == 0:
+        # percent signs in attribute NAMES (percent-encoded namespace, local part): format-string hazards
+        ops.append(["attrs", draw(st.integers(0, 30)),
+                    [[{"ns": "http://example.org/lab%20notes/", "local": "run%2Did", "prefix": "lab", "as": "qn"}, {"k": "str", "v": "100%"}]], "pairs"])
     return dict(r, ops=ops, opts=draw(st.integers(0, len(OPTS) - 1)))
 
 
@@ -65,7 +69,7 @@ def strategy(tier):
 
 
 def matrix(tier):
-    hostile = ['a <b> & "c"', 'q"uote', "back\\", "<br/>", "&amp;", "{x|y}", "new\nline", "é漢\U0001F600", "]]>", "<TABLE>"]
+    hostile = ['a <b> & "c"', 'q"uote', "back\\", "<br/>", "&amp;", "{x|y}", "new\nline", "é漢\U0001F600", "]]>", "<TABLE>", "50%s", "%d%%"]
     n = lambda l: {"ns": "http://a/", "local": l, "prefix": "ex", "as": "qn"}
     for i, h in enumerate(hostile):
         for oi in (0, 20, 45, 79, (i * 7) % 80):
